@@ -168,6 +168,42 @@ func (s *simState) runScript(script []string) error {
 			s.skipDC = parts[0] == "runnodc"
 			err = s.runFree(limit, nil)
 			s.skipDC = false
+		case "elect":
+			// election timeout at node n, then only vote requests / replies are delivered
+			// (no replication step runs) until n leads or nothing of that kind is left
+			n := w.nodes[num(1)-1]
+			if err = s.apply(simEvent{K: "T", N: n.idx, S: "main"}, true); err != nil {
+				break
+			}
+			save := w.opt.NoRepl
+			w.opt.NoRepl = true
+			for i := 0; i < 200 && err == nil && !(n.up && n.r.state == Leader); i++ {
+				ev := w.enabled(&simMenu{}, s.cnt)
+				var pick *simEvent
+				for j := range ev {
+					e := ev[j]
+					if e.Dev != 0 {
+						continue
+					}
+					if e.K == "R" {
+						pick = &ev[j]
+						break
+					}
+					if e.K == "D" {
+						if c := w.connByKey(e.C); c != nil {
+							if p := c.peekRequest(); p != nil && p.typ == rpcVote {
+								pick = &ev[j]
+								break
+							}
+						}
+					}
+				}
+				if pick == nil {
+					break
+				}
+				err = s.apply(*pick, true)
+			}
+			w.opt.NoRepl = save
 		case "update":
 			err = s.apply(simEvent{K: "CL", N: num(1) - 1, S: "update"}, true)
 			s.cnt.Updates-- // scripted operations do not consume the menu budget
@@ -219,6 +255,9 @@ func (s *simState) runScript(script []string) error {
 			return fmt.Errorf("%s: %v", cmd, err)
 		}
 		_ = w
+	}
+	if err := w.settle(); err != nil {
+		return err
 	}
 	s.hist = nil // the script is part of the scenario, histories are relative to the seed
 	s.dev = 0
@@ -390,7 +429,7 @@ func expandState(sc *simScenario, req *expandReq) *expandResp {
 		"snapshots": s.w.led.stats.snapshots, "compactions": s.w.led.stats.compactions, "linchecks": s.w.led.stats.linChecks,
 	}
 	evs := s.enabled()
-	if sc.Final != "" {
+	if sc.Final != "" && (sc.Final != "adversary" || s.w.led.newsAt == s.w.clock) {
 		resp.Final = finalCheck(sc, req.Hist)
 	}
 	parentHash := resp.Hash
@@ -717,6 +756,10 @@ func explore(sc *simScenario, budget time.Duration, maxStates int) *exploreResul
 	levels[0] = append(levels[0], root)
 	findKey := map[string]bool{}
 	addFinding := func(v simViolation, hist []simEvent) {
+		if len(v.Full) > 0 {
+			hist = v.Full
+			v.Full = nil
+		}
 		k := v.Oracle + ":" + v.Key
 		if findKey[k] {
 			return
